@@ -136,6 +136,26 @@ m('R14-rounds-indexed', [], (F, "\tfor idx, xIndex := range friChallenges.FriQue
 
 m('R19-hoist-packing-constants', [], (PB, "const BN254_FULL_ROUNDS int = 8", "var (\n\tpackTwo32 = new(big.Int).SetInt64(1 << 32)\n\tpackTwo64 = new(big.Int).Mul(packTwo32, packTwo32)\n)\n\nconst BN254_FULL_ROUNDS int = 8"), (PB, "\ttwo_to_32 := new(big.Int).SetInt64(1 << 32)\n\ttwo_to_64 := new(big.Int).Mul(two_to_32, two_to_32)\n", "\ttwo_to_64 := packTwo64\n"))
 
+# ---- more behaviour-preserving refactors (second wave)
+m('R20-dispatch-if-chain', [], (B, "\tswitch p.rangeCheckerType {\n\tcase NATIVE_RANGE_CHECKER, BIT_DECOMP_RANGE_CHECKER:\n\t\tp.rangeChecker.Check(x, nbBits)\n\tcase COMMIT_RANGE_CHECKER:\n\t\tp.collectedMutex.Lock()\n\t\tdefer p.collectedMutex.Unlock()\n\t\tp.rangeCheckCollected = append(p.rangeCheckCollected, checkedVariable{v: x, bits: nbBits})\n\t}",
+  "\tif p.rangeCheckerType == COMMIT_RANGE_CHECKER {\n\t\tp.collectedMutex.Lock()\n\t\tdefer p.collectedMutex.Unlock()\n\t\tp.rangeCheckCollected = append(p.rangeCheckCollected, checkedVariable{v: x, bits: nbBits})\n\t\treturn\n\t}\n\tp.rangeChecker.Check(x, nbBits)"))
+m('R21-dispatch-default-panic', [], (B, "\t\tp.rangeCheckCollected = append(p.rangeCheckCollected, checkedVariable{v: x, bits: nbBits})\n\t}\n}", "\t\tp.rangeCheckCollected = append(p.rangeCheckCollected, checkedVariable{v: x, bits: nbBits})\n\tdefault:\n\t\tpanic(\"unknown range checker type\")\n\t}\n}"))
+m('R22-sweep-helper', [], (V, "\tfor _, constant := range proof.Openings.Constants {\n\t\tc.glChip.RangeCheckQE(constant)\n\t}\n\n\tfor _, plonkSigma := range proof.Openings.PlonkSigmas {\n\t\tc.glChip.RangeCheckQE(plonkSigma)\n\t}\n", "\tc.rangeCheckAll(proof.Openings.Constants)\n\tc.rangeCheckAll(proof.Openings.PlonkSigmas)\n"), (V, "func (c *VerifierChip) rangeCheckProof(", "func (c *VerifierChip) rangeCheckAll(values []gl.QuadraticExtensionVariable) {\n\tfor i := range values {\n\t\tc.glChip.RangeCheck(values[i][0])\n\t\tc.glChip.RangeCheck(values[i][1])\n\t}\n}\n\nfunc (c *VerifierChip) rangeCheckProof("))
+m('R23-capbits-other-slicing', [], (F, "\tcapIndexBits := xIndexBits[len(xIndexBits)-int(f.friParams.Config.CapHeight):]", "\tcapStart := len(xIndexBits) - int(f.friParams.Config.CapHeight)\n\tcapIndexBits := xIndexBits[capStart:]"))
+m('R24-merkle-eq-swapped-args', [], (F, "\tf.api.AssertIsEqual(currentDigest, merkleCapEntry)", "\tf.api.AssertIsEqual(merkleCapEntry, currentDigest)"))
+m('R25-shape-guards-combined', [], (FU, "\t\tif len(initialTreesProof.EvalsProofs) != len(instance.Oracles) {\n\t\t\tpanic(\"eval proofs length is not equal to instance oracles length\")\n\t\t}", "\t\tif n := len(initialTreesProof.EvalsProofs); n != len(instance.Oracles) {\n\t\t\tpanic(\"eval proofs length is not equal to instance oracles length\")\n\t\t}"))
+m('R26-pow-local-width', [], (F, "\tf.gl.RangeCheckWithMaxBits(powWitness, 64-friConfig.ProofOfWorkBits)", "\twidth := 64 - friConfig.ProofOfWorkBits\n\tf.gl.RangeCheckWithMaxBits(powWitness, width)"))
+m('R27-getchallenges-locals', [], (V, "\t\tFriChallenges: challenger.GetFriChallenges(\n\t\t\tproof.OpeningProof.CommitPhaseMerkleCaps,\n\t\t\tproof.OpeningProof.FinalPoly,\n\t\t\tproof.OpeningProof.PowWitness,\n\t\t\tconfig.FriConfig,\n\t\t),\n\t}", "\t\tFriChallenges: friChallenges,\n\t}"), (V, "\tchallenger.ObserveOpenings(c.friChip.ToOpenings(proof.Openings))\n", "\tchallenger.ObserveOpenings(c.friChip.ToOpenings(proof.Openings))\n\tfriChallenges := challenger.GetFriChallenges(\n\t\tproof.OpeningProof.CommitPhaseMerkleCaps,\n\t\tproof.OpeningProof.FinalPoly,\n\t\tproof.OpeningProof.PowWitness,\n\t\tconfig.FriConfig,\n\t)\n"))
+m('R28-observe-elements-range', [], (CH, "\tfor i := 0; i < len(elements); i++ {\n\t\tc.ObserveElement(elements[i])\n\t}\n}\n\nfunc (c *Chip) ObserveHash", "\tfor _, e := range elements {\n\t\tc.ObserveElement(e)\n\t}\n}\n\nfunc (c *Chip) ObserveHash"))
+m('R29-setstring-helper', [], (VD, "\t\tcapBigInt, _ := new(big.Int).SetString(merkleCapRaw[i], 10)\n\t\tmerkleCap[i] = frontend.Variable(capBigInt)", "\t\tmerkleCap[i] = frontend.Variable(parseDecimal(merkleCapRaw[i]))"), (VD, "func DeserializeMerkleCap(", "func parseDecimal(s string) *big.Int {\n\tv, _ := new(big.Int).SetString(s, 10)\n\treturn v\n}\n\nfunc DeserializeMerkleCap("))
+m('R30-plonk-assert-loop-range', [], (P, "\tfor i := 0; i < len(vanishingPolysZeta); i++ {", "\tfor i := range vanishingPolysZeta {"))
+m('R31-inverse-ext-local', [], (Q, "\taIsZero := p.IsZero(a)\n\tp.api.AssertIsEqual(aIsZero, frontend.Variable(0))", "\tp.api.AssertIsEqual(p.IsZero(a), frontend.Variable(0))"))
+m('R32-rangecheck-limbs-reordered', [], (B, "\tp.rangeCheckerCheck(mostSigLimb, 32)\n\tp.rangeCheckerCheck(leastSigLimb, 32)\n", "\tp.rangeCheckerCheck(leastSigLimb, 32)\n\tp.rangeCheckerCheck(mostSigLimb, 32)\n"))
+m('R33-fixed-define-verify-last', [], (U, "\tverifierChip := NewVerifierChip(api, c.CommonCircuitData)\n\tverifierChip.Verify(c.ProofWithPis.Proof, c.ProofWithPis.PublicInputs, c.VerifierData)\n\n\tglChip := gl.New(api)\n\tpublicInputs := c.ProofWithPis.PublicInputs\n", "\tglChip := gl.New(api)\n\tpublicInputs := c.ProofWithPis.PublicInputs\n"), (U, "\t\tapi.AssertIsEqual(c.PublicInputs[j], publicInputLimb)\n\t}\n\n\treturn nil\n}", "\t\tapi.AssertIsEqual(c.PublicInputs[j], publicInputLimb)\n\t}\n\n\tverifierChip := NewVerifierChip(api, c.CommonCircuitData)\n\tverifierChip.Verify(c.ProofWithPis.Proof, c.ProofWithPis.PublicInputs, c.VerifierData)\n\treturn nil\n}"))
+m('R34-hashnopad-range-loop', [], (PG, "\tfor i := 0; i < len(input); i++ {\n\t\tinputVars = append(inputVars, c.Gl.Reduce(input[i]))\n\t}", "\tfor _, in := range input {\n\t\tinputVars = append(inputVars, c.Gl.Reduce(in))\n\t}"))
+m('R35-final-poly-ext-assert', [], (F, "\tf.gl.AssertIsEqual(oldEval[0], finalPolyEval[0])\n\tf.gl.AssertIsEqual(oldEval[1], finalPolyEval[1])\n", "\tf.gl.AssertIsEqualExtension(oldEval, finalPolyEval)\n"))
+m('R36-regex-var-renamed', [], (G+'noop_gate.go', 'var noopGateRegex = regexp.MustCompile("NoopGate")', 'var noopGateRegex = regexp.MustCompile("NoopGat" + "e")'))
+
 if __name__ == '__main__':
     import json, sys
     json.dump([{'name': n, 'props': p, 'edits': e} for n, p, e in M], sys.stdout)
